@@ -35,7 +35,7 @@ RULE = ("every TLC-printed case (type of the grammar x value variant, or collect
         "parameters and rustc's `(T)` spelling of 1-tuples; a case is non-trivial when the debugger returned a value "
         "for it; distinct = distinct (type name, abstract value) pairs")
 
-CLASSES = ("wrong_value", "wrong_kind", "missing_elements", "invented_elements", "duplicated_elements",
+CLASSES = ("wrong_value", "duplicate_result_wrong_value", "wrong_kind", "missing_elements", "invented_elements", "duplicated_elements",
            "slice_not_elements", "unspecialized_collection", "len_guard_truncation", "cap_guard_wrong_elements",
            "type_name", "wrong_address", "decoder_panic", "decoder_out_of_bounds", "no_value", "crash")
 
@@ -480,13 +480,32 @@ class Cmp:
         """set equality on keys: nothing missing, duplicated or invented.  Returns matched pairs."""
         rest = list(have)
         pairs, missing = [], []
-        for w in want:
-            hit = [h for h in rest if self.same(kw(w), kh(h))]
-            if hit:
-                rest.remove(hit[0])
-                pairs.append((w, hit[0]))
-            else:
-                missing.append(w)
+        if len(want) > 64 and all(kw(w)["k"] in ("int", "str") for w in want):
+            # large tables of plain keys: match through a dictionary (same relation, no quadratic scan)
+            def ck(x):
+                if isinstance(x, dict) and x.get("k") == "int":
+                    return ("int", x.get("v"))
+                if isinstance(x, dict) and x.get("k") == "str":
+                    return ("str", str_of(x) if "j" in x else x.get("v"))
+                return ("other", json.dumps(x, sort_keys=True))
+            pool = {}
+            for h in rest:
+                pool.setdefault(ck(self.unwrap(kh(h))), []).append(h)
+            for w in want:
+                hs = pool.get(ck(kw(w)))
+                if hs:
+                    pairs.append((w, hs.pop()))
+                else:
+                    missing.append(w)
+            rest = [h for hs in pool.values() for h in hs]
+        else:
+            for w in want:
+                hit = [h for h in rest if self.same(kw(w), kh(h))]
+                if hit:
+                    rest.remove(hit[0])
+                    pairs.append((w, hit[0]))
+                else:
+                    missing.append(w)
         if missing and len(missing) == len(rest) and len(missing) <= 3:
             # same cardinality: the unmatched elements are each other's counterparts shown wrongly --
             # descend to name the inner difference instead of reporting one missing + one invented
@@ -514,6 +533,8 @@ def brief(x):
 
 
 def ctor_of(case):
+    if "special" in case:
+        return "vdq"
     if "ops" in case:
         return "coll:" + case["kind"]
     return case["ty"]["c"]
@@ -531,6 +552,15 @@ def shape_of(case):
         if not t["a"]:
             return ".".join(out)
         t = t["a"][0]
+
+
+def case_key(case):
+    """stable name of a case for narrow known-finding entries: type text + variant, or the operation sequence"""
+    if "special" in case:
+        return case["special"]
+    if "ops" in case:
+        return f"{case['kind']}<{case['elem']}>:" + ",".join(f"{o['op']}({o['k']})" for o in case["ops"])
+    return f"{case['rust']}#{case['m']}"
 
 
 def at_of(case, path):
@@ -592,19 +622,23 @@ def judge(rep, cases_by_id, plan, rows, crashes, tc, stats, samples):
         else:
             ev = None
         script = [{"toolchain": tc, "case": {k: case[k] for k in case if k not in ("val", "id")}, "placement": kind}]
-        base = dict(shape=shape_of(case), rust=case.get("rust", ""), toolchain=tc, placement=kind, script=script)
+        base = dict(shape=shape_of(case), rust=case.get("rust", ""), toolchain=tc, placement=kind, script=script,
+                    case_key=case_key(case))
         results = by_name.get(name, [])
         if name in crashed or ("*locals" in crashed and kind == "local" and not results):
             c = crashed.get(name) or crashed["*locals"]
             stats["evaluations"] += 1
             rep.mismatch("crash", f"read:{c['api']}", at=ctor_of(case), expected=brief(exp), actual=c, **base)
             continue
-        want_apis = {"local": ["locals", "variable"], "arg": ["argument"], "static": ["variable"], "tls": ["variable"]}[kind]
+        want_apis = {"local": ["locals", "variable"], "arg": ["argument"], "static": ["variable"], "tls": ["variable"],
+                     "tls_const": ["variable"]}[kind]
         for api in want_apis:
             rs = [r for r in results if r["api"] == api]
             stats["evaluations"] += 1
             if not rs:
-                if api == "locals" and locals_row and locals_row.get("r") != "ok":
+                if "special" in case and api == "locals" and locals_row and locals_row.get("r") == "panic":
+                    judge_one(rep, case, exp, ev, locals_row, api, kind, base, stats, samples)
+                elif api == "locals" and locals_row and locals_row.get("r") != "ok":
                     rep.mismatch("decoder_panic" if locals_row.get("r") == "panic" else "no_value", "read:locals",
                                  at=ctor_of(case), expected=brief(exp), actual=locals_row, **base)
                 else:
@@ -642,7 +676,7 @@ def judge_one(rep, case, exp, ev, res, api, kind, base, stats, samples):
             continue
         act = one["v"]
         tyname = one.get("ty", "")
-        if kind == "tls" and isinstance(act, dict) and act.get("k") == "tls":
+        if kind in ("tls", "tls_const") and isinstance(act, dict) and act.get("k") == "tls":
             tyname = act.get("inner_type", tyname)
             act = act.get("inner")
         c = Cmp()
@@ -652,8 +686,12 @@ def judge_one(rep, case, exp, ev, res, api, kind, base, stats, samples):
         if norm_type(tyname) != norm_type(case["tyname"]):
             c.diffs.append({"class": "type_name", "path": ".", "at": ctor_of(case), "expected": case["tyname"], "actual": tyname})
         verdicts.append(c.diffs)
-    # several results for one name (thread-local shims): the value is shown correctly if one of them is right
-    best = min(verdicts, key=len)
+    # several results for one name: every value shown for the variable must be the value it holds
+    # (results that agree are merely redundant; one that disagrees is a wrong value on the screen)
+    best = max(verdicts, key=len)
+    if best and any(not v for v in verdicts):
+        for d in best:
+            d["class"] = "duplicate_result_" + d["class"]
     stats["nontrivial"].add((case["tyname"], vlib.stable_hash(exp)[:12]))
     stats["reads"].add((case["tyname"], vlib.stable_hash(exp)[:12], api))
     stats["by_api"][api] = stats["by_api"].get(api, 0) + 1
